@@ -278,4 +278,12 @@ def run(P, R, tier):
     junk_inert(P, R, 'C07.MPT.1')
     holds.refs_discipline(P, R, 'C07.WMC.4')
     mask_width(P, R)
+    from ..report import Remap
+    from . import c04, c10
+    # a reply is matched against the addressed request's own serial, never against daemon-wide state
+    r, sepch, idv, serv = c04.tag_tables(P, Remap(R, {}))
+    c04.validated_return(P, Remap(R, {'C04.GRD.1': 'C07.GRD.2'}), r, sepch, idv, serv)
+    # a timer that outlives its request fires on whoever reuses the memory: one timer per request, freed with it
+    cl = c10.cleanup_fn(P, Remap(R, {'C10.MPT.1': 'C07.TMR.1', 'C10.WIRE.1': 'C07.TMR.1'}))
+    c10.timer_lifecycle(P, Remap(R, {'C10.WMC.2': 'C07.TMR.1'}), cl)
     return EXPLANATION, ASSUMPTIONS
